@@ -134,6 +134,34 @@ def scope_functions(ctx) -> List[FunctionInfo]:
     return out
 
 
+def report_binding_slips(ctx, res, rule: str, hs) -> int:
+    """the handlers in hs are called by the dispatcher with one orientation of their operand types (no (a, b)/(b, a) slip)"""
+    inter, rets, raises, info = dispatch_info(ctx)
+    eng = ctx.types
+    handler_bind: Dict[str, Set] = {}
+    for (ta, tb), d in info.items():
+        if ta == "None" or tb == "None" or d["raises"] or len(d["returns"]) != 1:
+            continue
+        r, h, pt, an = d["returns"][0]
+        if h is None or pt is None or len(pt) != 2:
+            continue
+        handler_bind.setdefault(h, set()).add(tuple(show(x) for x in pt))
+    n = 0
+    for fi in hs:
+        bs = handler_bind.get(fi.qual)
+        if not bs:
+            continue
+        n += 1
+        ok = not any((y, x) in bs for (x, y) in bs if x != y)
+        res.ob(rule, fi.where(), "%s: operand binding" % fi.short, ok, "bound operand types %s at every dispatch row" % sorted(bs))
+        if not ok:
+            res.violation(rule, fi, fi.node,
+                          "handler %s is called by the dispatcher with its operands in both orders %s (an (a, b)/(b, a) slip in a "
+                          "dispatch row): one of the two orders hands it a %s where it expects a %s"
+                          % (fi.short, sorted(bs), sorted(bs)[0][0], sorted(bs)[0][1]), construct="binding of " + fi.short)
+    return n
+
+
 # ---------------------------------------------------------------- R4.1 - R4.3
 def r41_r43(ctx, res):
     inter, rets, raises, info = dispatch_info(ctx)
@@ -668,9 +696,9 @@ def _add_count(ctx, f: FunctionInfo, raise_stmt) -> Tuple[bool, str]:
     return False, "cardinality not bounded by the number of add sites"
 
 
-def r47(ctx, res):
+def r47(ctx, res, scope=None, rule="R4.7", need=20):
     eng = ctx.types
-    scope = scope_functions(ctx)
+    scope = scope_functions(ctx) if scope is None else scope
     inter = ctx.repo.fn("intersection", "calc.intersection")
     total = 0
     klass = {"type-guarded": 0, "equality-correlated": 0, "propositional": 0, "add-count": 0, "residual": 0}
@@ -685,7 +713,7 @@ def r47(ctx, res):
             ctxs = [(b, s) for b, s in eng.summaries_of(f) if id(R) in s.raises]
             if not ctxs:
                 klass["type-guarded"] += 1
-                res.ob("R4.7", where, label, True,
+                res.ob(rule, where, label, True,
                        "unreachable by types in all %d calling contexts" % len(eng.summaries_of(f)))
                 continue
             # reachable by types -- find the guard
@@ -694,6 +722,12 @@ def r47(ctx, res):
             if head is not None:
                 rows, _ = if_chain(head)
                 var = _switch_var(rows) if all(_eval_is_switch(t) for t, _ in rows) else None
+                if var is None and all(_eval_is_switch(t) for t, _ in rows):
+                    # rows that test different variables: the switch belongs to the variable of the row next to the raise; a
+                    # row that tests another variable says nothing about this one
+                    var = _switch_var(rows[-1:])
+                    if var is not None:
+                        rows = [(t_, b_) for t_, b_ in rows if _switch_var([(t_, b_)]) == var]
                 if var is not None:
                     vt = set()
                     first_test = rows[0][0]
@@ -719,12 +753,12 @@ def r47(ctx, res):
                         (facts if ok else bad).append("%s: %s" % (t, why))
                     if not bad:
                         klass["equality-correlated"] += 1
-                        res.ob("R4.7", where, label, True, "type switch on %s; residual %s discharged: %s" % (
+                        res.ob(rule, where, label, True, "type switch on %s; residual %s discharged: %s" % (
                             var, [str(t) for t in residual], "; ".join(facts)))
                     else:
-                        res.ob("R4.7", where, label, False, "type switch on %s leaves %s unhandled" % (var, residual))
+                        res.ob(rule, where, label, False, "type switch on %s leaves %s unhandled" % (var, residual))
                         res.violation(
-                            "R4.7", f, R,
+                            rule, f, R,
                             "internal raise is reachable by types: `%s` may be %s here and no branch of the type switch handles it"
                             % (var, " or ".join(str(t) for t in residual)),
                             construct="%s: type switch on %s reaches raise" % (f.short, var),
@@ -753,7 +787,7 @@ def r47(ctx, res):
                             if all(r[0] for r in rs):
                                 okB = True
                                 klass["equality-correlated"] += 1
-                                res.ob("R4.7", where, label, True,
+                                res.ob(rule, where, label, True,
                                        "re-check of an equality the callee already decided: %s is %s here; %s" % (
                                            var, [str(t) for t in residual], rs[0][1]))
             if okB:
@@ -761,18 +795,18 @@ def r47(ctx, res):
             ok, why = _propositional(ctx, f, R)
             if ok:
                 klass["propositional"] += 1
-                res.ob("R4.7", where, label, True, why)
+                res.ob(rule, where, label, True, why)
                 continue
             ok, why = _add_count(ctx, f, R)
             if ok:
                 klass["add-count"] += 1
-                res.ob("R4.7", where, label, True, why)
+                res.ob(rule, where, label, True, why)
                 continue
             klass["residual"] += 1
-            res.undecided_ob("R4.7 %s %s -- guarded only by a runtime cardinality / numeric test" % (where, label))
+            res.undecided_ob(rule + " %s %s -- guarded only by a runtime cardinality / numeric test" % (where, label))
     for k, v in klass.items():
-        res.count("R4.7 raises " + k, v)
-    ctx.require(res, "R4.7", total, 20, "internal raise statements in the intersection code")
+        res.count(rule + " raises " + k, v)
+    ctx.require(res, rule, total, need, "internal raise statements in the intersection code")
 
 
 def _eval_is_switch(test) -> bool:
@@ -910,6 +944,10 @@ def run(ctx, res):
     r47(ctx, res)
     r48(ctx, res)
     r49_same_type_swap_closure(ctx, res)
+    # R4.10 the collinearity helper that guards the coplanar polygon / polygon routine tests every point (coverage.py)
+    from ..coverage import check_collinearity_helper
+    kc = check_collinearity_helper(ctx, res, "R4.10")
+    ctx.require(res, "R4.10", kc, 2, "return sites of points_in_a_line")
     res.undecided_ob("for the 7 same-type pairs, that handler(a, b) and handler(b, a) denote the same set beyond the swap closure "
                      "of the consulted candidate families (numeric)")
     res.extra["functions_analysed"] = len(scope_functions(ctx))
